@@ -582,15 +582,22 @@ def region_formula(w, target, env, sizes, order=None):
     return z3.Exists(qs, f) if qs else f
 
 
+LAST_SECS = [0.0]
+
+
 def check_valid(premises, concl, timeout_ms=20000):
     """premises => concl valid?  ('discharged' | 'failed' | 'undecided', model text)"""
     import z3
+
+    import time as _t
 
     s = z3.Solver()
     s.set("timeout", timeout_ms)
     s.add(z3.And(premises) if premises else z3.BoolVal(True))
     s.add(z3.Not(concl))
+    t0 = _t.time()
     r = s.check()
+    LAST_SECS[0] = _t.time() - t0
     if r == z3.unsat:
         return "discharged", None
     if r == z3.sat:
